@@ -1,11 +1,13 @@
 import Driver.Util
 import Driver.C10
+import Driver.C05
 open Driver
 
 def dispatch (line : String) : String :=
   match fields line with
   | "reader" :: args => C10.reader args
   | "comment" :: args => C10.comment args
+  | "exit" :: args => C05.exit args
   | _ => "bad-op"
 
 partial def loop (h : IO.FS.Stream) (out : IO.FS.Stream) : IO Unit := do
